@@ -574,6 +574,8 @@ func immutableValue(x ssa.Value) bool {
 		return immutableValue(x.X)
 	case *ssa.MakeInterface:
 		return immutableValue(x.X)
+	case *ssa.MakeClosure, *ssa.Call:
+		return immutableFuncValue(x, 0) // ext_x5.go
 	}
 	return !isPointerLike(x.Type()) && !isAggregateWithRefs(x.Type())
 }
